@@ -1,17 +1,207 @@
 package main
 
+// Self-validation of the checker (thorough tier, DESIGN.md §6): a catalogue of seeded variants of
+// /repo's source is applied IN MEMORY (go/packages overlay; nothing is written under /repo and
+// nothing is executed) and the property's rules are evaluated on each variant in a subprocess.
+//
+//   breaking variant: must compile and must be reported with the expected obligation key;
+//   benign variant  : behaviour-preserving rewrite; the rules must stay silent.
+//
+// A variant whose anchor text is no longer present exactly once is reported as skipped (the
+// repository moved on), never as a violation of the property.  An undetected breaking variant or
+// a noisy benign variant fails the thorough run as a CHECKER failure (exit 2), not as a
+// property violation.
+
+import (
+	"bytes"
+	"fmt"
+	"os"
+	"os/exec"
+	"path/filepath"
+	"regexp"
+	"sort"
+	"strings"
+	"sync"
+)
+
 type Mutant struct {
 	Name   string
 	Kind   string // breaking | benign
-	Prop   string
+	Prop   string // comma separated property ids
 	File   string // relative to repo
 	Old    string
 	New    string
-	Expect string // obligation key expected to be violated (breaking)
+	Expect string // obligation key expected to be violated (breaking); a trailing * matches a prefix
+	Why    string
+	// Edits: additional replacements (two cooperating sites)
+	More []Edit
 }
 
-func mutantsFor(prop string) []Mutant { return nil }
+type Edit struct {
+	File, Old, New string
+}
 
-func mutantOverlay(repo, prop, name string) (map[string][]byte, error) { return nil, nil }
+func (m Mutant) forProp(prop string) bool {
+	for _, p := range strings.Split(m.Prop, ",") {
+		if strings.TrimSpace(p) == prop {
+			return true
+		}
+	}
+	return false
+}
 
-func runSelfTest(prop, repo string, r *Run) map[string]interface{} { return nil }
+func mutantsFor(prop string) []Mutant {
+	var out []Mutant
+	for _, m := range mutantCatalogue {
+		if m.forProp(prop) {
+			out = append(out, m)
+		}
+	}
+	return out
+}
+
+func mutantOverlay(repo, prop, name string) (map[string][]byte, error) {
+	for _, m := range mutantsFor(prop) {
+		if m.Name != name {
+			continue
+		}
+		ov := map[string][]byte{}
+		edits := append([]Edit{{m.File, m.Old, m.New}}, m.More...)
+		for _, e := range edits {
+			abs := filepath.Join(repo, e.File)
+			src, ok := ov[abs]
+			if !ok {
+				b, err := os.ReadFile(abs)
+				if err != nil {
+					return nil, err
+				}
+				src = b
+			}
+			if n := bytes.Count(src, []byte(e.Old)); n != 1 {
+				return nil, fmt.Errorf("anchor text of %s occurs %d times in %s (expected exactly once)", name, n, e.File)
+			}
+			ov[abs] = bytes.Replace(src, []byte(e.Old), []byte(e.New), 1)
+		}
+		return ov, nil
+	}
+	return nil, fmt.Errorf("no mutant %q for %s", name, prop)
+}
+
+var oblLine = regexp.MustCompile(`(?m)^  rule=\S+ obligation=(.*) site=`)
+
+func runSelfTest(prop, repo string, r *Run) map[string]interface{} {
+	ms := mutantsFor(prop)
+	type res struct {
+		m       Mutant
+		status  string // detected | missed | silent | noisy | skipped | broken
+		detail  string
+		reports []string
+	}
+	results := make([]res, len(ms))
+	var wg sync.WaitGroup
+	sem := make(chan struct{}, 8)
+	exe, _ := os.Executable()
+	for i, m := range ms {
+		wg.Add(1)
+		go func(i int, m Mutant) {
+			defer wg.Done()
+			sem <- struct{}{}
+			defer func() { <-sem }()
+			cmd := exec.Command(exe, "-prop", prop, "-tier", "quick", "-repo", repo, "-mutant", m.Name, "-no-evidence")
+			cmd.Env = append(os.Environ(), "WZ_VERIF="+verifDir())
+			out, err := cmd.CombinedOutput()
+			code := 0
+			if ee, ok := err.(*exec.ExitError); ok {
+				code = ee.ExitCode()
+			} else if err != nil {
+				code = -1
+			}
+			var keys []string
+			for _, mm := range oblLine.FindAllStringSubmatch(string(out), -1) {
+				keys = append(keys, mm[1])
+			}
+			rs := res{m: m, reports: keys}
+			switch {
+			case code == 3:
+				rs.status, rs.detail = "skipped", firstLine(out)
+			case code == 2 || code < 0:
+				rs.status, rs.detail = "broken", "variant could not be analysed (does it compile?): "+lastLines(out, 3)
+			case m.Kind == "breaking":
+				hit := false
+				for _, k := range keys {
+					if k == m.Expect || (strings.HasSuffix(m.Expect, "*") && strings.HasPrefix(k, strings.TrimSuffix(m.Expect, "*"))) {
+						hit = true
+					}
+				}
+				if hit {
+					rs.status = "detected"
+				} else {
+					rs.status, rs.detail = "missed", fmt.Sprintf("expected %s, reported %v", m.Expect, keys)
+				}
+			default:
+				if code == 0 && len(keys) == 0 {
+					rs.status = "silent"
+				} else {
+					rs.status, rs.detail = "noisy", fmt.Sprintf("reported %v", keys)
+				}
+			}
+			results[i] = rs
+		}(i, m)
+	}
+	wg.Wait()
+	cnt := map[string]int{}
+	var list []map[string]interface{}
+	for _, rs := range results {
+		cnt[rs.status]++
+		e := map[string]interface{}{"name": rs.m.Name, "kind": rs.m.Kind, "file": rs.m.File, "status": rs.status, "why": rs.m.Why}
+		if rs.m.Kind == "breaking" {
+			e["expect"] = rs.m.Expect
+		}
+		if rs.detail != "" {
+			e["detail"] = rs.detail
+		}
+		list = append(list, e)
+		switch rs.status {
+		case "missed":
+			r.Failures = append(r.Failures, fmt.Sprintf("SELFTEST checker insensitive: breaking variant %s not detected (%s)", rs.m.Name, rs.detail))
+		case "noisy":
+			r.Failures = append(r.Failures, fmt.Sprintf("SELFTEST checker over-sensitive: benign variant %s reported (%s)", rs.m.Name, rs.detail))
+		case "broken":
+			r.Failures = append(r.Failures, fmt.Sprintf("SELFTEST variant %s: %s", rs.m.Name, rs.detail))
+		case "skipped":
+			fmt.Printf("SELFTEST-SKIPPED %s: %s\n", rs.m.Name, rs.detail)
+		}
+	}
+	sort.Slice(list, func(i, j int) bool { return list[i]["name"].(string) < list[j]["name"].(string) })
+	nb, nn := 0, 0
+	for _, m := range ms {
+		if m.Kind == "breaking" {
+			nb++
+		} else {
+			nn++
+		}
+	}
+	fmt.Printf("selftest property=%s breaking=%d detected=%d missed=%d benign=%d silent=%d noisy=%d skipped=%d broken=%d\n",
+		prop, nb, cnt["detected"], cnt["missed"], nn, cnt["silent"], cnt["noisy"], cnt["skipped"], cnt["broken"])
+	return map[string]interface{}{
+		"breaking_total": nb, "breaking_detected": cnt["detected"], "benign_total": nn, "benign_silent": cnt["silent"],
+		"skipped": cnt["skipped"], "variants": list,
+		"method": "each variant = one or two text edits applied through a go/packages overlay (in memory), analysed in its own subprocess; nothing is executed",
+	}
+}
+
+func firstLine(b []byte) string {
+	s := strings.TrimSpace(string(b))
+	if i := strings.IndexByte(s, '\n'); i >= 0 {
+		s = s[:i]
+	}
+	return s
+}
+
+func lastLines(b []byte, n int) string {
+	ls := strings.Split(strings.TrimSpace(string(b)), "\n")
+	if len(ls) > n {
+		ls = ls[len(ls)-n:]
+	}
+	return strings.Join(ls, " | ")
+}
